@@ -360,7 +360,9 @@ static void fault_case(uint64_t fi, void *vctx) {
     int repaired = 0;
     { jd_t now; if (!jd_load(&now, path)) { uint8_t *alt = malloc(pl->size); memcpy(alt, pl->file, pl->size); apply_fault(alt, pl->size, &f); repaired = now.size != pl->size || memcmp(now.buf, alt, pl->size); free(alt); jd_free(&now); } }
     if (repaired) v_count("C04", "opens_that_repaired", 1);
+    prefix_complete_on_success(!repaired);
     verify_prefix_ex(rd, &pl->m, "C04", &r, path, lengths, (repaired && g_file_has_omission) ? "omitted-blocks" : kind, 1);
+    prefix_complete_on_success(0);
     int full = 1;
     for (int s = 1; s < 256; ++s) if (pl->m.sig[s].defined && pl->m.sig[s].fsr && lengths[s] != msig_length(&pl->m.sig[s])) full = 0;
     v_count("C04", full ? "outcome_returned_truth_or_errors" : "outcome_returned_prefix", 1);
